@@ -162,27 +162,41 @@ def execute(plan):
         if on_disk:
             root = os.path.join(workdir, "src")
             os.makedirs(root)
-            lp = P.load(plan["prog"], root)
+            # own package name: loading / unloading the on-disk copy must not disturb a cached in-memory program of the same spec
+            lp = P.load(dict(plan["prog"], pkg=plan["prog"]["pkg"] + "_d"), root)
         else:
             root = None
             lp = c02.get_program(plan["prog"])
         sessions, path = E.run_sessions(plan, lp, workdir)
         rows0 = E.raw_rows(path)
-        distinct = sorted({tuple(r[1:]) for r in rows0}, key=repr)
+        def canon(r):
+            # union member order inside the stored JSON reflects set iteration (memory layout): order and pick rows by a canonical form
+            return json.dumps([c01._norm_json(json.loads(x)) if isinstance(x, str) and x[:1] in "{[" else x for x in r], sort_keys=True)
+
+        distinct = sorted({tuple(r[1:]) for r in rows0}, key=canon)
         if plan.get("stale"):
             pkgp = lp.spec["pkg"] + "."
             extra = []
+
+            def rename_first(d):
+                if isinstance(d, dict):
+                    if str(d.get("module", "")).startswith(pkgp) and "qualname" in d and not d.get("is_typed_dict"):
+                        d["qualname"] = "GoneClass"
+                        return True
+                    return any(rename_first(d[k]) for k in sorted(d))
+                if isinstance(d, list):
+                    return any(rename_first(x) for x in d)
+                return False
+
             for r in distinct:
                 if len(extra) >= plan["stale"]:
                     break
                 if r[2] and ('"module": "%s' % pkgp) in r[2]:
-                    import re as _re
-
-                    a2 = _re.sub(r'("module": "%s[^"]*", "qualname": ")[^"]+(")' % _re.escape(pkgp), r"\1GoneClass\2", r[2], count=1)
-                    if a2 != r[2]:
-                        extra.append((r[0], r[1], a2, r[3], r[4]))
+                    d = c01._norm_json(json.loads(r[2]))
+                    if rename_first(d):
+                        extra.append((r[0], r[1], json.dumps(d, sort_keys=True), r[3], r[4]))
             if extra:
-                distinct = sorted(set(distinct) | set(extra), key=repr)
+                distinct = sorted(set(distinct) | set(extra), key=canon)
                 probes["trace set contains stale rows"] += 1
         results = collections.defaultdict(list)   # module -> [(label, rc, out, exc)]
         dbs = []
